@@ -544,7 +544,36 @@ pub fn mutate(t: &mut Tape, d: &Dict) -> String {
 /// shapes aimed at specific branches read in the code
 pub fn shape(t: &mut Tape, d: &Dict) -> String {
     let n = 1 + t.pick(240);
-    match t.pick(35) {
+    match t.pick(36) {
+        35 => {
+            // towers whose exponents multiply to exactly the ends of the i64 range (2^63 - 1 =
+            // 7^2 * 73 * 127 * 337 * 92737 * 649657), on a unit and on an inline definition, on
+            // either side of a conversion, under the commands, beside another factor
+            let sets: [&[&str]; 6] = [
+                &["49", "73", "127", "337", "92737", "649657"],
+                &["2097152", "2097152", "2097152"],
+                &["2147483648", "4294967296"],
+                &["153092023", "92737", "649657"],
+                &["3037000500", "3037000500"],
+                &["100000"],
+            ];
+            let set = sets[t.pick(6)];
+            let mut s = t.choose(&["m", "(x=1)", "s", "(x = 1 m)", "'apple'", "bit"]).to_string();
+            let neg_at = t.pick(set.len() + 2);
+            for (i, f) in set.iter().enumerate() {
+                s = format!("({}^{}{})", s, if i == neg_at { "-" } else { "" }, f);
+            }
+            let pre = t.choose(&["", "kg ", "cd ", "A ", "1 / ", "J ", "water "]);
+            match t.pick(7) {
+                0 => format!("{}{}", pre, s),
+                1 => format!("1 -> {}{}", pre, s),
+                2 => format!("{}{} -> {}{}", pre, s, pre, s),
+                3 => format!("factorize {}{}", pre, s),
+                4 => format!("units for {}{}", pre, s),
+                5 => format!("{}{} -> m, cm", pre, s),
+                _ => format!("({}{}) {}", pre, s, t.choose(&["m", "/ m", "m^2", "s"])),
+            }
+        }
         32 => {
             // inline definitions inside a conversion target: their constant factor and their value
             format!(
